@@ -199,6 +199,24 @@ theorem gen_ftunit (n i : Int) (h0 : 0 ≤ i) (hi : i < n) (shift : Bool) :
   · rw [(ftunit_unshifted n i h0 hi).2]; simp only [Model.C04.ftUnitNumS, Model.C04.fftfreqNum]; rfl
   · rw [ftunit_zero_at_origin n i h0 hi]; simp only [Model.C04.ftUnitNumS, if_true, hm]
 
+/-- FFT-route propagation (`focus`, `unfocus`): the roll applied before the FFT brings the origin sample `n // 2` to FFT
+index 0, and the roll applied after it puts the zero-frequency bin on index `n // 2` — for odd and even `n` -/
+theorem fft_route_origin (n : Int) (hn : 1 ≤ n) :
+    Model.C04.rollSrc n (focusPre n) 0 = n / 2 ∧ Model.C04.rollSrc n (focusPost n) (n / 2) = 0 ∧
+    Model.C04.rollSrc n (unfocusPre n) 0 = n / 2 ∧ Model.C04.rollSrc n (unfocusPost n) (n / 2) = 0 := by
+  have hb : npFftshiftBy n = n / 2 := (np_consts n).2.2.2
+  have hi : npIfftshiftBy n = -(n / 2) := by
+    (try simp only [npIfftshiftBy, Model.C04.npIfftshiftBy]) <;> omega
+  have hbM : Model.C04.npFftshiftBy n = n / 2 := rfl
+  have hiM : Model.C04.npIfftshiftBy n = -(n / 2) := rfl
+  have e1 : (0 - -(n / 2)) % n = n / 2 := by
+    rw [zero_sub, neg_neg]; exact Int.emod_eq_of_lt (by omega) (by omega)
+  have e2 : (n / 2 - n / 2) % n = 0 := by simp
+  refine ⟨?_, ?_, ?_, ?_⟩ <;>
+    simp only [focusPre, focusPost, unfocusPre, unfocusPost, Model.C04.rollSrc, hb, hi, hbM, hiM, e1, e2]
+
+example : Model.C04.rollSrc 7 (focusPre 7) 0 = 3 ∧ Model.C04.rollSrc 7 (focusPost 7) 3 = 0 := by decide
+
 /-! ## pad and crop -/
 
 /-- padding moves the origin sample onto the origin of the new array (every parity) -/
